@@ -21,7 +21,7 @@ fn('dsplib::FftPlan::size', CZ, key='FftPlan::size', serves=['C01'], trusted=Tru
    notes='ghost: the size reported by the plan object a FftPlan forwards to (virtual call)')
 CM = lambda r, a, b: 'And({r}.re == {a}.re * {b}.re - {a}.im * {b}.im, {r}.im == {a}.re * {b}.im + {a}.im * {b}.re)'.format(r=r, a=a, b=b)
 # A / B: what is handed to the forward / inverse transform; RA / RB: what they return (ghost copies taken at the calls)
-fn('dsplib::CztPlanImpl::solve', CZ, serves=['C01', 'C05', 'C09'], pure=True, extra_env=ENV,
+fn('dsplib::CztPlanImpl::solve', CZ, serves=['C01', 'C05', 'C09'], pure=True, extra_env=ENV, pins_algorithm=True,
    requires=[('invariant', CZ_OK)], throws='x.len != _n',
    ghost={'A': 'x', 'B': 'x', 'RA': 'x', 'RB': 'x'},
    ghost_on=[('call:solve', None, {'B': 'arg0', 'A': 'B'}), ('ret:solve', None, {'RB': 'arg', 'RA': 'RB'})],
@@ -44,7 +44,7 @@ fn('dsplib::eps', 'lib/types.cpp', sig='double (double)', key='eps(double)', ser
 CH = lambda k: ('COS(%s * %s)' % (WA, HALFSQ(k)), 'SIN(%s * %s)' % (WA, HALFSQ(k)))
 TNEAR1 = 'SQRT((a.re - 1) * (a.re - 1) + a.im * a.im) > EPSD(a.re)'
 PWK = ('CPW_RE(a.re, a.im, -ToReal(k0))', 'CPW_IM(a.re, a.im, -ToReal(k0))')
-fn('dsplib::CztPlanImpl::CztPlanImpl', CZ, serves=['C01', 'C05'], assigns=['this'], may_throw=True, extra_env=ENV,
+fn('dsplib::CztPlanImpl::CztPlanImpl', CZ, serves=['C01', 'C05'], assigns=['this'], may_throw=True, extra_env=ENV, pins_algorithm=True,
    requires=[('sizes', 'And(n >= 1, m >= 1, n <= 1000000, m <= 1000000)'), ('ghost', 'And(0 <= k0, k0 < n, 0 <= j0, j0 < m)')],
    lets={'k0': 'ghost_int("input index")', 'j0': 'ghost_int("output index")'},
    ensures=[('invariant', CZ_OK), ('sizes', 'And(_n == n, _m == m)'),
